@@ -37,6 +37,7 @@ CONSTANTS MaxWall,      \* wall clock 0..MaxWall
           NPush,        \* pushes by the producer thread
           WithStopper,
           AllowSpurious,
+          History,      \* record the history variables (FALSE in liveness configurations: no VIEW is possible there)
           SetUnderMutex, \* FALSE = mutant: flags are set and notified without taking the mutex (vacuity check)
           Emit
 
@@ -59,7 +60,7 @@ Max(a, b) == IF a >= b THEN a ELSE b
 MinOf(S) == CHOOSE x \in S : \A y \in S : x <= y
 Times == {p[1] : p \in pend}
 WakeRequested == pushPending \/ stopReq
-Log(x) == script' = Append(script, x)
+Log(x) == script' = IF History THEN Append(script, x) ELSE script
 
 (***************************************************************************)
 (* The evaluation thread                                                   *)
@@ -139,7 +140,7 @@ Compute == /\ epc = "compute"
                                    ELSE ""
                     ELSE /\ epc' = "cycle"
                          /\ consec' = IF t = evalTime + 1 THEN consec + 1 ELSE 0
-                         /\ cycles' = Append(cycles, [t |-> t, w |-> wall])
+                         /\ cycles' = IF History THEN Append(cycles, [t |-> t, w |-> wall]) ELSE << [t |-> t, w |-> wall] >>
                          /\ afterStop' = IF stopDone THEN afterStop + 1 ELSE afterStop
                          /\ bad' = IF bad # "" THEN bad
                                    ELSE IF cycles # <<>> /\ t <= evalTime THEN "C17.time_not_strictly_increasing"
